@@ -3,6 +3,7 @@
 //   c01_geometry small <out.ndjson> <budget-per-config> <stage>   exhaustive small configurations
 //   c01_geometry db    <out.ndjson> <samples-per-config>          predefined scanners + big generated rings
 #include "vh_stir.h"
+#include "stir/SSRB.h"
 #include <set>
 #include <algorithm>
 using namespace stir;
@@ -165,7 +166,7 @@ static void record(vh::Trace& tr, const Cfg& c, const PDI& pdi, const std::strin
   }
 }
 
-static void run_cfg(vh::Trace& tr, const Cfg& c, const std::string& name, long budget, vh::Rng& rng, bool exh, shared_ptr<Scanner> sc = nullptr) {
+static void run_cfg(vh::Trace& tr, const Cfg& c, const std::string& name, long budget, vh::Rng& rng, bool exh, shared_ptr<Scanner> sc = nullptr, int alias_kind = 0) {
   std::string msg;
   shared_ptr<ProjDataInfo> pdi;
   bool bad = vh::threw([&] {
@@ -177,7 +178,46 @@ static void run_cfg(vh::Trace& tr, const Cfg& c, const std::string& name, long b
       pdi->reduce_segment_range(-(pdi->get_max_segment_num() - c.segReduce), pdi->get_max_segment_num() - c.segReduce);
   }, &msg);
   if (bad) { tr.emit(vh::Json("ConfigRejected").str("name", name).num("N", c.N).num("R", c.R).num("span", c.span).num("maxDelta", c.maxDelta).str("msg", msg)); return; }
-  if (auto* p = dynamic_cast<ProjDataInfoCylindricalNoArcCorr*>(pdi.get())) record(tr, c, *p, name, budget, rng, exh);
+  if (auto* p = dynamic_cast<ProjDataInfoCylindricalNoArcCorr*>(pdi.get())) {
+    record(tr, c, *p, name, budget, rng, exh);
+    if (alias_kind > 0) {
+      // History: derive other objects from this one (clone / copy / SSRB), change and USE them (which makes them
+      // build their own lazy tables), then ask the ORIGINAL object everything again.  Nothing is recorded for the
+      // derived objects; the second set of answers is recorded under the same Config and must be explained like the first.
+      std::string m2;
+      vh::threw([&] {
+        for (int round = 0; round < 2; ++round) {
+          shared_ptr<ProjDataInfo> q;
+          if ((alias_kind + round) % 3 == 0) {
+            q.reset(p->clone());
+            if (q->get_max_segment_num() >= 1) q->reduce_segment_range(-(q->get_max_segment_num() - 1), q->get_max_segment_num() - 1);
+          } else if ((alias_kind + round) % 3 == 1) {
+            q.reset(SSRB(*p, std::min(3, p->get_num_segments() | 1), 1, 0));
+          } else {
+            auto* cp = new ProjDataInfoCylindricalNoArcCorr(*p);
+            q.reset(cp);
+            for (int s = cp->get_min_segment_num(); s <= cp->get_max_segment_num(); ++s)
+              if (s != 0 && cp->get_max_ring_difference(s) > cp->get_min_ring_difference(s)) {
+                if (s > 0) cp->set_max_ring_difference(cp->get_max_ring_difference(s) - 1, s);
+                else cp->set_min_ring_difference(cp->get_min_ring_difference(s) + 1, s);
+              }
+          }
+          auto* qc = dynamic_cast<ProjDataInfoCylindrical*>(q.get());
+          long sink = 0;
+          for (int s = qc->get_min_segment_num(); s <= qc->get_max_segment_num(); ++s)
+            for (int a = qc->get_min_axial_pos_num(s); a <= qc->get_max_axial_pos_num(s); ++a)
+              sink += (long)qc->get_all_ring_pairs_for_segment_axial_pos_num(s, a).size();
+          for (int r1 = 0; r1 < c.R; ++r1) for (int r2 = 0; r2 < c.R; ++r2) { int s = 0, a = 0; sink += qc->get_segment_axial_pos_num_for_ring_pair(s, a, r1, r2) == Succeeded::yes; }
+          if (auto* qn = dynamic_cast<ProjDataInfoCylindricalNoArcCorr*>(q.get())) {
+            int v = 0, tp = 0; sink += qn->get_view_tangential_pos_num_for_det_num_pair(v, tp, 0, c.N / 2);
+            Bin b(0, 0, 0, 0); DetectionPositionPair<> dp; qn->get_det_pos_pair_for_bin(dp, b); sink += dp.pos1().tangential_coord();
+          }
+          if (sink == -12345) tr.emit(vh::Json("Never"));
+        }
+      }, &m2);
+      record(tr, c, *p, name + "+after-derived-objects", budget, rng, exh);
+    }
+  }
   else if (auto* g = dynamic_cast<ProjDataInfoGenericNoArcCorr*>(pdi.get())) record(tr, c, *g, name, budget, rng, exh);
 }
 
@@ -191,7 +231,7 @@ int main(int argc, char** argv) {
   vh::Rng rng(vh::seed_from_env());
   if (mode == "small") {
     int stage = argc > 4 ? atoi(argv[4]) : 0;   // 0: quick family, 1: thorough family
-    std::vector<int> Ns = stage ? std::vector<int>{ 4, 6, 8, 12, 16, 20, 24 } : std::vector<int>{ 4, 8, 12 };
+    std::vector<int> Ns = stage ? std::vector<int>{ 4, 6, 8, 10, 12, 14, 16, 18, 20, 24 } : std::vector<int>{ 4, 6, 8, 10, 12 };
     int maxR = stage ? 5 : 4;
     for (int N : Ns)
       for (int R = 1; R <= maxR; ++R)
@@ -215,7 +255,9 @@ int main(int argc, char** argv) {
                     // thin the product: keep all axial layouts for one in-plane setting and vice versa
                     bool keep = (mash == 1 && tof == 0 && trunc == 0) || (layout <= 3 && maxDelta == R - 1) || rng.range(0, 5) == 0;
                     if (!keep) continue;
-                    run_cfg(tr, c, "gen", budget, rng, true);
+                    // every third cylindrical configuration with more than one segment: also the aliasing history
+                    const int alias_kind = (std::string(geom) == "Cylindrical" && R >= 2 && maxDelta >= 1 && rng.range(0, 2) == 0) ? 1 + rng.range(0, 2) : 0;
+                    run_cfg(tr, c, "gen", budget, rng, true, nullptr, alias_kind);
                   }
               }
             }
